@@ -17,6 +17,14 @@ def pr(model: M.RawModel) -> str:
     return printer.print_model(model, io.StringIO()).getvalue()
 
 
+def safe_pr(model: Any) -> str:
+    """printing for failure messages: a corrupted model must not turn a finding into a harness error"""
+    try:
+        return pr(model)
+    except Exception as e:  # noqa
+        return f'<unprintable: {type(e).__name__}: {e}>'
+
+
 def store_text(store: Any) -> str:
     return ''.join(t.raw_text for t in store)
 
@@ -257,7 +265,10 @@ def wrappers_state(root: M.RawModel) -> tuple:
         for k, v in m.__dict__.items():
             idx = getattr(v, '_raw_indexes', None)
             if idx is not None:
-                out.append((path, k, tuple(idx)))
+                # also the hidden wiring: is this table still the list object that the update handler maintains?
+                hs = getattr(getattr(v, '_raw_wrapper', None), '_update_handlers', None)
+                wired = None if hs is None else any(getattr(h, '_raw_indexes', None) is idx for h in hs)
+                out.append((path, k, tuple(idx), wired))
             elif hasattr(v, '_update_handlers'):
                 out.append((path, k, len(v._update_handlers)))
     return tuple(out)
